@@ -64,8 +64,40 @@ func unencodableTempo(d Doc) (int, bool) {
 	return 0, false
 }
 
+// meterFit: a time-signature event holds the numerator in one byte and the denominator as a power of two.
+// "never": no event can state the meter (numerator above 255, denominator not a power of two): only a refusal is
+// faithful. "maybe": the format could (denominator 256 and up) but a writer may not support it: refusal or the right event.
+func meterFit(d Doc) (Frac, string) {
+	for _, m := range d.Model(960) {
+		if m.Meter == nil {
+			continue
+		}
+		n, den := m.Meter.N, m.Meter.D
+		if n > 255 || den < 1 || den&(den-1) != 0 {
+			return *m.Meter, "never"
+		}
+		if den > 128 {
+			return *m.Meter, "maybe"
+		}
+	}
+	return Frac{}, ""
+}
+
 func checkC07(c C07Case) *Violation {
 	d := c.Doc
+	if mt, fit := meterFit(d); fit != "" {
+		res := Run{Argv: append([]string{"write"}, d.Flags.Argv()...), Stdin: d.YAML()}.Exec()
+		if v := cleanOutcome(res); v != nil {
+			return v
+		}
+		if res.Exit != 0 {
+			return nil
+		}
+		if fit == "never" {
+			return vio("meter-unencodable-accepted", "a meter of %d/%d does not fit a time-signature event (numerator in one byte, denominator a power of two), yet `crd write` exits 0 with %d bytes\nargs=%v\n%s", mt.N, mt.D, len(res.Stdout), d.Flags.Argv(), d.YAML())
+		}
+		// accepted: then it has to be right (compared below)
+	}
 	if bpm, bad := unencodableTempo(d); bad {
 		// the only faithful outcome is a refusal; a file stating some other tempo is different music
 		res := Run{Argv: append([]string{"write"}, d.Flags.Argv()...), Stdin: d.YAML()}.Exec()
@@ -341,6 +373,19 @@ func TestC07(t *testing.T) {
 				r.Class("tempo-beyond-a-set-tempo-event(must be refused)", 1)
 			} else {
 				r.Class("tempo-at-the-limits-of-a-set-tempo-event", 1)
+			}
+		}
+		if coin(t, "extreme-meter", 6) {
+			v := rapid.SampledFrom([]Frac{{3, 5}, {4, 3}, {7, 6}, {5, 12}, {300, 4}, {256, 4}, {255, 4}, {255, 128}, {4, 128}, {4, 256}, {3, 512}, {65536, 4}, {1, 1}, {1, 128}}).Draw(t, "extreme-meter-value")
+			if coin(t, "extreme-meter-by-flag", 25) {
+				d.Flags.Meter = &v
+			} else {
+				d.Insts[rapid.IntRange(0, len(d.Insts)-1).Draw(t, "extreme-meter-at")].Meter = &v
+			}
+			if _, fit := meterFit(d); fit == "never" {
+				r.Class("meter-beyond-a-time-signature-event(must be refused)", 1)
+			} else {
+				r.Class("meter-at-the-limits-of-a-time-signature-event", 1)
 			}
 		}
 		c := C07Case{d}
